@@ -381,6 +381,11 @@ func runC31(env *mc.Env) {
 	}
 	env.R.Set("distinct_baseline_meter_sequences", len(distinct))
 
+	type diffRes struct {
+		differs      bool
+		detail, kind string
+	}
+	diffs := map[string]diffRes{}
 	// compare (deterministic order: tasks, then index)
 	for ti, t := range tasks {
 		o := outs[ti]
@@ -433,17 +438,24 @@ func runC31(env *mc.Env) {
 				continue
 			}
 			c := c31Case{Sel: t.sel, Idx: idx, Prog: w.progs[pi].Name, VM: e == 1, Prefix: strings.Join(prefix, ",")}
-			differs, detail, kind := c31FirstDiff(env, w, c, pi)
-			if !differs {
-				env.R.HarnessError("meter summary of %s differed (%v vs %v) but the re-run did not: %s", key, got, b, detail)
+			// the difference is located (two more worker processes) once per distinct deviating
+			// observation of (program, engine); further cases with the same observation are counted
+			dk := fmt.Sprintf("%d|%d|%v", pi, e, got)
+			d, seen := diffs[dk]
+			if !seen {
+				d.differs, d.detail, d.kind = c31FirstDiff(env, w, c, pi)
+				diffs[dk] = d
+			}
+			if !d.differs {
+				env.R.HarnessError("meter summary of %s differed (%v vs %v) but the re-run did not: %s", key, got, b, d.detail)
 				continue
 			}
 			eng := "interp"
 			if e == 1 {
 				eng = "vm"
 			}
-			env.R.Violation(fmt.Sprintf("%s|%s|%s", eng, w.progs[pi].Name, kind), c,
-				fmt.Sprintf("%s (%s) after [%s] in worker %q run #%d: %s", w.progs[pi].Name, eng, c.Prefix, t.sel, idx, detail))
+			env.R.Violation(fmt.Sprintf("%s|%s|%s", eng, w.progs[pi].Name, d.kind), c,
+				fmt.Sprintf("%s (%s) after [%s] in worker %q run #%d: %s", w.progs[pi].Name, eng, c.Prefix, t.sel, idx, d.detail))
 		}
 	}
 	names := make([]string, n)
